@@ -341,3 +341,20 @@ Theorem c37_static_arp_dispatch_refuted : forall clamp H nft,
   In arp_dispatch static_chains /\ In pfx_arp endpoint_prefixes /\ length iface_dispatch <= 15.
 Proof. exact arp_dispatch_clash. Qed.
 Print Assumptions c37_static_arp_dispatch_refuted.
+
+(* ---------- policy groups over histories ---------- *)
+(* equal group chain names => same direction, selector and ORDERED policy list, or a 20-character SHA3-224 collision *)
+Theorem c37_group_name_injective : forall H3 i j s t ps qs,
+  has nl s = false -> has nl t = false ->
+  forallb valid_pid ps = true -> forallb valid_pid qs = true ->
+  group_chain H3 i s ps = group_chain H3 j t qs ->
+  (i = j /\ s = t /\ ps = qs) \/ trunc_collision H3 20.
+Proof. exact group_name_injective. Qed.
+Print Assumptions c37_group_name_injective.
+
+(* purity: in any sequence of namings the name of a group is group_chain of that group, whatever was named before *)
+Theorem c37_group_name_history_independent : forall H3 h1 h2 g,
+  nth_error (name_history H3 (h1 ++ [g])) (length h1) = Some (name_group H3 g) /\
+  nth_error (name_history H3 (h1 ++ [g])) (length h1) = nth_error (name_history H3 (h2 ++ [g])) (length h2).
+Proof. exact group_name_history_independent. Qed.
+Print Assumptions c37_group_name_history_independent.
